@@ -31,7 +31,7 @@ RULE = ("Goals A1 --> ... --> An --> C from a typed grammar over bool/nat/int/re
         "(1) an independent guard-correct z3 encoding of the negated goal gives a model, (2) the model counts only if "
         "the evaluator of vlib.c06_lib evaluates every premise to True and the conclusion to False under HOL semantics "
         "(quantifiers over a finite partition of the type: points plus intervals evaluated abstractly), (3) bounded "
-        "enumeration of assignments through the same evaluator. SymPy goals (families over + - * / ^ abs and, in 12 %, sqrt / log / exp / real power with the identities SymPy "
+        "enumeration of assignments through the same evaluator. SymPy goals (families over + - * / ^ abs and, in 25 %, sqrt / log / exp / real power / trigonometric poles, also nested inside one another, with the identities SymPy "
         "applies by itself): exact/interval evaluation (vlib.arith) at a "
         "rational grid of the interval, its admissible end points, constants of the goal and their combinations. "
         "Non-trivial = the step accepted the goal; distinct by canonical JSON.")
@@ -1023,21 +1023,32 @@ class GS(G):
                  (power(REAL, rf('sqrt', u), 2), absv(REAL, u)), (rpow(u, one), u), (rf('log', one), lit(REAL, 0)),
                  (rf('sqrt', lit(REAL, 4)), two), (rf('sqrt', lit(REAL, -4)), lit(REAL, -2)), (rf('sqrt', lit(REAL, -4)), two),
                  (mul(REAL, rf('exp', u), rf('exp', neg(REAL, u))), one), (div(rf('sqrt', u), rf('sqrt', u)), one),
-                 (rpow(u, lit(REAL, 0)), one), (rf('exp', rf('log', u)), absv(REAL, u))]
-        a, b = self.pick(pairs)
+                 (rpow(u, lit(REAL, 0)), one), (rf('exp', rf('log', u)), absv(REAL, u)),
+                 # a partial operation INSIDE the restricted operand of another one (SymPy simplifies it away first)
+                 (div(one, div(u, u)), one), (rf('sqrt', div(u, u)), one), (div(u, power(REAL, rf('sqrt', u), 2)), one),
+                 (rf('log', div(u, u)), lit(REAL, 0)), (div(one, rf('exp', rf('log', u))), div(one, u)),
+                 # trigonometric functions at their poles: tan = sin / cos, sec = 1 / cos ... with x / 0 = 0
+                 (rf('tan', div(C('pi', REAL), two)), lit(REAL, 0)), (rf('csc', lit(REAL, 0)), lit(REAL, 0)),
+                 (rf('sec', div(C('pi', REAL), two)), lit(REAL, 0)), (rf('cot', lit(REAL, 0)), lit(REAL, 0)),
+                 (mul(REAL, rf('tan', u), rf('cos', u)), rf('sin', u))]
+        nested = [(div(one, div(u, u)), one), (rf('sqrt', div(u, u)), one), (div(u, power(REAL, rf('sqrt', u), 2)), one),
+                  (rf('log', div(u, u)), lit(REAL, 0)), (div(div(u, u), div(u, u)), one), (div(one, div(one, div(u, u))), one)]
+        a, b = self.pick(pairs) if self.chance(0.7) else self.pick(nested)
         if self.chance(0.25):
             a, b = b, a
         prems = []
         k = r.randrange(10)
         if k < 5:
             fam = 's0-partial'
-            concl = self.pick([eq(REAL, a, b), eq(REAL, a, b), ge(REAL, a, b), le(REAL, a, b), NOT(eq(REAL, a, add(REAL, b, one)))])
+            concl = self.pick([eq(REAL, a, b), eq(REAL, a, b), ge(REAL, a, b), le(REAL, a, b), NOT(eq(REAL, a, add(REAL, b, one))),
+                               NOT(eq(REAL, a, b)), gt(REAL, a, lit(REAL, 0))])
         else:
             fam = 's1-partial'
             lo, hi = self.endpoints()
             closed = self.chance(0.6)
             prems = [mem(REAL, x, interval(closed, lit(REAL, lo), lit(REAL, hi)))]
             concl = self.pick([eq(REAL, a, b), ge(REAL, a, b), le(REAL, a, b), NOT(eq(REAL, a, add(REAL, b, one))),
+                               gt(REAL, a, lit(REAL, 0)), NOT(eq(REAL, a, b)),
                                ge(REAL, rf('sqrt', u), lit(REAL, 0)), gt(REAL, rf('exp', rf('log', u)), lit(REAL, 0)),
                                NOT(eq(REAL, rf('sqrt', u), lit(REAL, 0))), ge(REAL, rpow(u, half), lit(REAL, 0))])
         hyps = [[] for _ in prems]
@@ -1045,7 +1056,7 @@ class GS(G):
 
     def sympy_case(self):
         r = self.r
-        if self.chance(0.12):
+        if self.chance(0.25):
             return self.sympy_partial()
         x, y = V('x', REAL), V('y', REAL)
         k = r.randrange(100)
